@@ -13,7 +13,7 @@ from unitgen import Raw, Prelude, Item, Rewrite, Fragment, Generated
 NAME = 'u_inbody'
 PROPERTIES = ['C02', 'C04']
 CONTRACTS = 'u_inbody.contracts'
-SHARED_CONTRACTS = ['u_table.contracts', 'u_modes.contracts', 'u_tmpl.contracts', 'u_fcontent.contracts', 'u_stack.contracts', 'u_aaa.contracts']
+SHARED_CONTRACTS = ['u_table.contracts', 'u_modes.contracts', 'u_tmpl.contracts', 'u_fcontent.contracts', 'u_stack.contracts', 'u_aaa.contracts', 'u_misa.contracts']
 RLIMIT = 150
 H = u_stack.H
 R = u_table.R
